@@ -12,20 +12,25 @@ Local Open Scope nat_scope.
 
 Notation qmatrix := (list (list Q)).
 
+(* one Model.create / Model.replace: which attributes were given, and what the implementation answered *)
+Record nstage := mkNStage {
+  g_pnew : option (list (id * Q));             (* 'parameters' given: their initial estimates *)
+  g_rnew : option (coll id);                   (* 'random_variables' given (entries = parameter ids) *)
+  g_validate : bool;                           (* rvs.validate_parameters(inits handed to canonicalisation) *)
+  g_nearest : list (id * Q);                   (* rvs.nearest_valid_parameters(the same inits) *)
+  g_out : list (id * Q)                        (* the resulting model.parameters.inits *)
+}.
+
 Record ncase := mkNCase {
-  n_coll : coll id;                            (* distributions with parameter ids as entries *)
-  n_inits : list (id * Q);                     (* the initial estimates handed to Model.create *)
+  n_stages : list nstage;                      (* Model.create first, then the replace history *)
   n_psd : list (qmatrix * bool);               (* block value A  ->  is_positive_semidefinite(A) *)
   n_rep : list (qmatrix * qmatrix);            (* block value A  ->  nearest_positive_semidefinite(A) *)
-  n_validate : bool;                           (* rvs.validate_parameters(inits) *)
-  n_nearest : list (id * Q);                   (* rvs.nearest_valid_parameters(inits) *)
-  n_model_inits : list (id * Q);               (* Model.create(...).parameters.inits *)
-  n_sdcorr : option (list (id * Q));           (* rvs.parameters_sdcorr(model inits) *)
+  n_sdcorr : option (list (id * Q));           (* rvs.parameters_sdcorr(final model inits) *)
   n_sqrt : list (Q * Q);                       (* np.sqrt as computed *)
   n_e01 : Q;                                   (* np.exp(0.1) *)
   n_tenth : Q;                                 (* the float 0.1 *)
-  (* UCP: per level group (etas, epsilons): symbolic covariance matrix (None = 0), cholesky(A),
-     scale, descaled matrix *)
+  (* UCP of the final model: per level group (etas, epsilons): symbolic covariance matrix (None = 0),
+     cholesky(A), scale, descaled matrix *)
   n_ucp : option (list (list (list (option id)) * qmatrix * qmatrix * qmatrix));
   n_from_ucp : list (id * Q);                  (* calculate_parameters_from_ucp(model, scale, all 0.1) *)
   n_free : list id                             (* names of the non-fixed parameters *)
@@ -102,23 +107,30 @@ Section WithCase.
   Definition q_repair (M : qmatrix) : qmatrix := match tlookup (n_rep c) M with Some B => B | None => M end.
   Definition q_is0 (x : Q) : bool := Qeq_bool x 0.
 
-  Definition m_validate := validate Q 0%Q q_is_psd (n_inits c) (n_coll c).
-  Definition m_nearest := nearest Q 0%Q q_is_psd q_repair (n_inits c) (n_coll c).
-  Definition m_canon := canonicalize Q 0%Q q_is_psd q_repair (n_inits c) (n_coll c).
+  (* the model's history: (current initial estimates, current random variables) *)
+  Definition step_model (st : list (id * Q) * coll id) (g : nstage) : list (id * Q) * coll id :=
+    model_replace Q 0%Q q_is_psd q_repair (fst st) (snd st) (g_pnew g) (g_rnew g).
+  Definition chosen (st : list (id * Q) * coll id) (g : nstage) : list (id * Q) * coll id :=
+    (match g_pnew g with Some p => p | None => fst st end, match g_rnew g with Some r => r | None => snd st end).
+  (* the final state as the IMPLEMENTATION reports it *)
+  Definition impl_final : list (id * Q) * coll id :=
+    fold_left (fun st g => (g_out g, snd (chosen st g))) (n_stages c) ([], []).
+  Definition n_coll : coll id := snd impl_final.
+  Definition n_model_inits : list (id * Q) := fst impl_final.
   Definition m_sdcorr (p : list (id * Q)) :=
-    sdcorr_params Q 0%Q Qmult Qdiv q_sqrt_t q_is0 p (n_coll c).
+    sdcorr_params Q 0%Q Qmult Qdiv q_sqrt_t q_is0 p n_coll.
   Definition m_scale (L : qmatrix) :=
     scale_matrix Q 0%Q Qplus Qminus Qmult Qdiv (fun _ => n_e01 c) Qabs 10%Q (n_tenth c) L.
   Definition m_descale (U Sc : qmatrix) := descale_matrix Q 0%Q Qplus Qmult (fun _ => n_e01 c) U Sc.
 
-  Definition blocks_of (p : list (id * Q)) : list qmatrix :=
-    map (msubs Q 0%Q p) (joint_blocks (n_coll c)).
+  Definition blocks_of (p : list (id * Q)) (r : coll id) : list qmatrix :=
+    map (msubs Q 0%Q p) (joint_blocks r).
 
   (* ucp matrix: 0.1 for every (non-fixed) parameter symbol, the fixed value for fixed ones, 0 for a
      structural zero *)
   Definition ucp_matrix (Ms : list (list (option id))) : qmatrix :=
     map (map (fun o => match o with
-                       | Some s => if memp s (n_free c) then n_tenth c else pget Q 0%Q (n_model_inits c) s
+                       | Some s => if memp s (n_free c) then n_tenth c else pget Q 0%Q n_model_inits s
                        | None => 0%Q end)) Ms.
   (* the value from_ucp assigns to a parameter: the LAST position holding its symbol (row-major zip) *)
   Definition last_pos (Ms : list (list (option id))) (s : id) : option (nat * nat) :=
@@ -148,7 +160,7 @@ Section WithCase.
         ) groups ++
         (* the property: from_ucp(scale(M), 0.1) == inits(M) for every free parameter *)
         flat_map (fun kv => if memp (fst kv) (n_free c)
-                            then tag (qclose (snd kv) (pget Q 0%Q (n_model_inits c) (fst kv))) 44 else [])
+                            then tag (qclose (snd kv) (pget Q 0%Q n_model_inits (fst kv))) 44 else [])
                  (n_from_ucp c)
     end.
 
@@ -156,28 +168,41 @@ Section WithCase.
     match n_sdcorr c with
     | None => []
     | Some sd =>
-        tag (params_close (m_sdcorr (n_model_inits c)) sd) 34 ++
+        tag (params_close (m_sdcorr n_model_inits) sd) 34 ++
         (* the property on the implementation's own answer: sd_i * corr_ij * sd_j gives back the block *)
         flat_map (fun V =>
-          let A := msubs Q 0%Q (n_model_inits c) V in
+          let A := msubs Q 0%Q n_model_inits V in
           let n := length V in
           tag (forallb (fun i => forallb (fun j =>
                  let name := fun a b => nth b (nth a V []) 1%positive in
                  let sdi := pget Q 0%Q sd (name i i) in let sdj := pget Q 0%Q sd (name j j) in
                  if Nat.eqb i j then qclose (sdi * sdi) (qget A i i)
                  else qclose (sdi * pget Q 0%Q sd (name i j) * sdj) (qget A i j))
-               (seq 0 n)) (seq 0 n)) 43) (joint_blocks (n_coll c))
+               (seq 0 n)) (seq 0 n)) 43) (joint_blocks n_coll)
+    end.
+
+  (* every stage: the model (fed with the implementation's previous answer) against the implementation,
+     and the property statements on the implementation's own answers *)
+  Fixpoint check_stages (st : list (id * Q) * coll id) (first : bool) (gs : list nstage) : list nat :=
+    match gs with
+    | [] => []
+    | g :: tl =>
+        let '(p_in, r) := chosen st g in
+        tag (Bool.eqb (validate Q 0%Q q_is_psd p_in r) (g_validate g)) 31 ++
+        tag (params_eqb (nearest Q 0%Q q_is_psd q_repair p_in r) (g_nearest g)) 32 ++
+        (* Model.create / Model.replace end canonicalised, whatever was replaced *)
+        tag (params_eqb (fst (step_model st g)) (g_out g)) (if first then 33 else 37) ++
+        (* every covariance block of the resulting initial estimates is PSD (within tolerance) *)
+        tag (forallb psd_tol (blocks_of (g_out g) r)) 41 ++
+        (* valid values are never altered *)
+        tag (negb (g_validate g) || params_eqb p_in (g_out g)) 42 ++
+        tag (g_validate g) 231 ++
+        check_stages (g_out g, r) false tl
     end.
 
   Definition nverdict : list nat :=
-    tag (Bool.eqb m_validate (n_validate c)) 31 ++
-    tag (params_eqb m_nearest (n_nearest c)) 32 ++
-    tag (params_eqb m_canon (n_model_inits c)) 33 ++
+    check_stages ([], []) true (n_stages c) ++
     check_sdcorr ++ check_ucp ++
-    (* every covariance block of the model's initial estimates is PSD (within tolerance) *)
-    tag (forallb psd_tol (blocks_of (n_model_inits c))) 41 ++
-    (* valid values are never altered *)
-    tag (negb (n_validate c) || params_eqb (n_inits c) (n_model_inits c)) 42 ++
     (* the implementation's PSD test against the exact test, outside the tolerance band *)
     flat_map (fun Ab => let '(A, b) := Ab in
                 if is_symmetric A then
@@ -186,6 +211,5 @@ Section WithCase.
     (* the repaired matrix: PSD within tolerance, symmetric; untouched when the input was PSD *)
     flat_map (fun AB => let '(A, B) := AB in
                 tag (psd_tol B) 46 ++ tag (is_symmetric B) 47 ++
-                (if q_is_psd A then tag (mat_eqb A B) 42 else [])) (n_rep c) ++
-    tag (n_validate c) 231.
+                (if q_is_psd A then tag (mat_eqb A B) 42 else [])) (n_rep c).
 End WithCase.
